@@ -39,7 +39,6 @@ Section Oracle.
 Variable bucket : name -> N.
 Variable nlen : name -> N.
 Variable H : N.
-Hypothesis nlen_pos : forall nm, 1 <= nlen nm.
 Set Default Proof Using "All".
 
 Notation rsize := (rsize nlen).
@@ -76,7 +75,7 @@ Proof.
   induction F as [|o e l l' (r & E & ->) F IH]; intros LR LO Eo; [reflexivity|].
   cbn [chain_ok]. apply andb_true_iff. split.
   - destruct (LR o (or_introl eq_refl)) as (r' & E' & Cp & Lw & Bk). rewrite E in E'. inversion E'; subst r'.
-    pose proof (find_rec_some _ _ _ E) as [Ir Er]. destruct (L r Ir) as (L1 & L2 & L3 & L4 & L5).
+    pose proof (find_rec_some _ _ _ E) as [Ir Er]. destruct (L r Ir) as (L1 & L2 & L3 & L4 & L5 & L6).
     cbn [linked_ok] in LO. destruct LO as [Ln _]. unfold load_next in Ln. rewrite E in Ln.
     cbn [map] in Eo. inversion Eo as [[Eo1 Eo2]].
     unfold ent_ok, view_of, e_off, e_name, e_val, e_next; cbn [fst snd].
@@ -85,7 +84,7 @@ Proof.
     + apply N.leb_le. exact L2.
     + apply N.leb_le. exact L3.
     + apply N.eqb_eq. unfold PAGE, c_pageSize. exact L4.
-    + cbn [orb]. apply N.leb_le. apply nlen_pos.
+    + cbn [orb]. apply N.leb_le. exact L6.
     + apply N.leb_le. exact L5.
     + apply N.eqb_eq. exact Bk.
     + apply N.eqb_eq. rewrite Ln.
